@@ -10,19 +10,20 @@ from .c14 import mk
 EXPLANATION = (
     "BOUNDED, small-scope exhaustive.  FmtStr.__getitem__ / __add__ / __radd__ / __mul__ / __len__ / join (and normalize_slice, "
     "Chunk, fmtstr ... whatever they call) are abstractly interpreted on a pool of run layouts (no runs, one empty run, one to "
-    "three runs with empty runs in every position, up to 4 characters) and compared with the SAME operation of CPython applied "
+    "three runs with empty runs in every position, up to 4 characters, a value of 11 characters in ten runs) and compared with the SAME operation of CPython applied "
     "to the plain text (for the characters) and to the list of per-character (character, formatting) cells (for the formatting) - "
     "list and str indexing are the oracle, nothing is re-implemented: every index and every slice bound in [-len-2, len+2] and "
-    "None; + with every pool value and with plain str on either side; * 0..3; join of every list of up to 3 items drawn from "
+    "None; + with every pool value and with plain str on either side; * 0..5; join of every list of up to 3 items drawn from "
     "{'', 'x', a one-run value, a two-run value, a value without runs} for a plain, an empty and a formatted separator; len(); "
     "every operation also with operands whose memoised views (.s, len, width, terminal string) were filled beforehand; every result's own .s, "
     "len() and str() (what a terminal shows for it, through the reference SGR machine) must agree with its runs; after every operation "
     "every FmtStr operand must still hold the runs it was built from and agree with itself (L8)."
 )
 NOT_DECIDED = ("values longer than the pool's, slice steps (not supported by the class by design: NotImplementedError), repeat counts "
-               "above 3, item lists longer than 3.")
+               "above 5, item lists longer than 3.")
 
 A1, A2, A3 = {"fg": 31}, {"bg": 44, "bold": True}, {"underline": True}
+A4 = {"fg": 32}
 POOL = [
     ("no runs", []),
     ("one empty run", [("", {})]),
@@ -32,6 +33,9 @@ POOL = [
     ("'' + 'abc' plain", [("", A3), ("abc", {})]),
     ("'ab' + 'cd' + '' three runs", [("ab", A1), ("cd", A3), ("", A2)]),
     ("'ab' red + 'c' + 'ab' red + 'd' (the same run twice)", [("ab", A1), ("c", A3), ("ab", A1), ("d", A2)]),
+    # many runs: neighbours that carry the same attribute names with different values, an empty formatted run among them
+    ("'abcdefghijk' in ten runs alternating red / green", [("a", A1), ("b", A4), ("", A3), ("cd", A1), ("e", A4), ("f", A1), ("g", A4),
+                                                          ("h", A1), ("i", A4), ("jk", A1)]),
 ]
 
 GROUPS = {
@@ -108,7 +112,7 @@ def check(src, rep):
             for star in ("", "*"):          # *: the operands have been looked at (views memoised) before the operation
                 jobs.append(("add-str" + star, pi, s_))
                 jobs.append(("radd-str" + star, pi, s_))
-        for k in range(0, 4):
+        for k in range(0, 6):
             jobs.append(("mul", pi, k))
             jobs.append(("mul*", pi, k))
         jobs.append(("len", pi, None))
